@@ -197,6 +197,11 @@ def _cb(p, kind, k, isg, kw):
             except Exception as e:  # noqa: BLE001 - recorded and re-raised: the callback does not catch
                 R.log.append(["n", "x", exn_json(e)])
                 raise
+            if asyncio.iscoroutine(r):
+                # a plain callback inside the async engine gets an un-awaited coroutine back (known
+                # finding D18, probed by C05); the trigger itself is already queued: treat as None here
+                r.close()
+                r = None
             R.log.append(["n", "v", to_json(r)])
         else:
             raise UserErr(act[1])
@@ -354,6 +359,7 @@ def render_source(sc):
         return all(t[k] == u[k] for k in ("ev", "int", "val", "cond", "before", "on", "after"))
 
     temps = style in ("assign", "event_ctor")
+    mixed = sc.get("mixed") if style == "mixed" else None     # per transition: 1 = event by attribute
     j = 0
     trs = sc["trans"]
     while j < len(trs):
@@ -367,6 +373,8 @@ def render_source(sc):
                    and trs[j + len(group)]["s"] not in [g["s"] for g in group]):
                 group.append(trs[j + len(group)])
         kw = kwargs_of(t)
+        if mixed is not None and not mixed[j]:
+            kw = ["event=" + repr(" ".join(evname(e) for e in t["ev"]))] + kw
         if len(group) > 1 and tstyle == "multi":
             call = f"{S(t['s'])}.to({', '.join([S(g['t']) for g in group] + kw)})"
         elif len(group) > 1:
@@ -377,8 +385,16 @@ def render_source(sc):
             call = f"{S(t['s'])}.to.itself({', '.join(kw)})"
         else:
             call = f"{S(t['s'])}.to({', '.join([S(t['t'])] + kw)})"
-        body.append(f"    tr{j} = {call}" if temps else f"    {call}")
+        body.append(f"    tr{j} = {call}" if (temps or (mixed is not None and mixed[j])) else f"    {call}")
         j += len(group)
+    if mixed is not None:
+        # the same event is attached with event= on some transitions and by class attribute on others
+        for e in used_events:
+            via_attr = [f"tr{j}" for j, t in enumerate(trs) if mixed[j] and e in t["ev"]]
+            if via_attr:
+                body.append(f"    {evname(e)} = " + " | ".join(via_attr))
+        if any(mixed):
+            body.append("    del " + ", ".join(f"tr{j}" for j in range(len(trs)) if mixed[j]))
     if style == "assign":
         # event attributes in index order: `go = tr0 | tr3`, then drop the helper names
         for e in used_events:
